@@ -656,14 +656,15 @@ def auto_sig(c, obl, what, lines):
         return 'partition-forms-differ-after-packing' if c.op == 'pickle' else 'partition-forms-differ'
     if 'merge to float16 not implemented' in text:
         return 'float16-merge-not-implemented'
-    if c.op == 'pickle' and 'type changed' in what and what.count('parameters=') % 2 == 1:
+    if c.op == 'pickle' and 'type changed' in what and ' -> ' in what and \
+            what.split(' -> ')[0].count('parameters=') > what.split(' -> ')[1].count('parameters='):
         return 'packed-loses-parameters'
     if 'generated array does not have the declared length' in text and '/lazy' in what:
         return 'buffers-lazy-declared-length'
     if c.op in ('buffers', 'pickle'):
         if 'must not be shorter than' in text or 'is not valid (ak.is_valid)' in text or 'length mismatch' in text:
             return 'buffers-trimmed-content-under-untrimmed-parent'
-        if c.meta.get('empty_buffer') and re.search(r'buffers/(bytes|json|lazy)', what):
+        if c.meta.get('empty_buffer') and re.search(r'buffers/(bytes|json)', what):
             return 'buffers-bytes-empty-buffer'
     if c.op in ('numpy', 'numpy2'):
         if tree_feature(tree, lambda t: t[0] == 'rec' and len(t) == 3):
@@ -672,13 +673,23 @@ def auto_sig(c, obl, what, lines):
             return 'from_numpy-regulararray-empty-reshape'
         if 'subarray lengths are not regular' in text or ("cannot convert 'None' values" in text and 'refused rectilinear' in what):
             return 'to_numpy-looks-at-unreachable-content'
-        if c.meta.get('zero_dim'):
+        if c.meta.get('zero_dim') or '(l)' in text:
             return 'numpy-zero-length-dimension'
+        if 'differs from to_list' in what and tree_feature(tree, lambda t: t[0] == 'rec'):
+            return 'to_numpy-record-uses-field-length'
+    if 'VirtualForm cannot determine its type without an expected Form' in text:
+        return 'virtual-without-form'
     if c.op == 'arrow':
+        if tree_feature(tree, lambda t: t[0] in ('ixo', 'bym', 'bim') and t[children_idx(t)[0]][0] == 'virt') and ('differs from' in what or 'another value' in what):
+            return 'arrow-virtual-drops-mask'
+        if 'Unsupported cast to' in text and 'from null' in text:
+            return 'arrow-empty-option-content-cast'
         if 'min() iterable argument is empty' in text:
             return 'arrow-record-without-fields'
-        if 'pyarrow.lib.Tensor' in text:
+        if 'pyarrow.lib.Tensor' in text or (c.meta['tags'].get('tensor') and tree_feature(tree, lambda t: t[0] == 'np' and len(t[2]) > 1)):
             return 'arrow-tensor-not-an-array'
+        if c.meta['tags'].get('partitioned') and 'has another value' in what and tree_feature(tree, lambda t: t[0] == 'un'):
+            return 'arrow-chunked-union-merges-bool'
         if 'need at least one array to concatenate' in text:
             return 'arrow-all-chunks-empty'
         if 'boolean index did not match' in text:
@@ -707,6 +718,10 @@ def check_stage(V, c, skips, stage, it, obl, must=True):
     if st is None:
         if must:
             V.add('bad', 'harness', 'stage %s missing in the implementation output' % stage, c, [case_line(c)], no_input=True)
+        return None
+    if st[0] == 'err' and st[2] == 'DriverProtocolError':
+        V.env['pyshim: DriverProtocolError'] = V.env.get('pyshim: DriverProtocolError', 0) + 1      # a pyshim defect, not the library
+        V.bump('pyshim-error')
         return None
     if st[0] == 'ok':
         return st[1]
@@ -852,6 +867,27 @@ def check_pickle(V, c, res, skips):
     return 'agree' if compare_roundtrip(V, c, 'rt', inf, rt, obl, check_form_params=False, what='pickle round trip') else 'fail'
 
 
+def np_equiv(a, b, boolnum=False):
+    """equality of a to_list value and a NumPy value, modulo what NumPy cannot express: masks are per element (a missing
+    row = a row whose elements are all masked, vacuously so when it has none); with unions bool is promoted to numbers"""
+    def leaves_all_none(x):
+        if isinstance(x, list) and x and x[0] == 'l':
+            return all(leaves_all_none(y) for y in x[1:])
+        return x == 'none'
+    if isinstance(a, list) and a and a[0] == 'l' and isinstance(b, list) and b and b[0] == 'l':
+        return len(a) == len(b) and all(np_equiv(x, y, boolnum) for x, y in zip(a[1:], b[1:]))
+    if a == 'none' and isinstance(b, list) and b and b[0] == 'l':
+        return leaves_all_none(b)
+    if b == 'none' and isinstance(a, list) and a and a[0] == 'l':
+        return leaves_all_none(a)
+    if isinstance(a, list) and isinstance(b, list):
+        return len(a) == len(b) and all(np_equiv(x, y, boolnum) for x, y in zip(a, b))
+    if boolnum:
+        m = {'true': '1', 'false': '0'}
+        return m.get(a, a) == m.get(b, b)
+    return a == b
+
+
 NUMERIC_LEAF = re.compile(r'^(bool|u?int(8|16|32|64)|float(16|32|64)|complex(64|128))$')
 
 
@@ -925,7 +961,7 @@ def check_numpy(V, c, res, skips):
         f = st[1]
         any_ok = True
         nv = val_text(f)
-        if nv != ivt:
+        if not np_equiv(iv, fld(f, 'val')[1], 'union' in ts):
             V.add('viol', obl, 'numpy/%s: to_numpy(a) differs from to_list(a)' % nm, c,
                   [case_line(c), '# to_list:  ' + short(ivt), '# to_numpy: ' + short(nv or '?'),
                    '# shape ' + unparse(fld(f, 'shape')[1]) + ' type ' + ts], sig=sig_numpy(c, ts, ivt, 'value'))
@@ -940,7 +976,7 @@ def check_numpy(V, c, res, skips):
             if bf is None:
                 good = False
                 continue
-            if val_text(bf) != ivt:
+            if not np_equiv(iv, fld(bf, 'val')[1]):
                 V.add('viol', obl2, 'numpy/%s: from_numpy(to_numpy(a)) differs from a' % back, c,
                       [case_line(c), '# a:    ' + short(ivt), '# back: ' + short(val_text(bf) or '?')], sig=sig_numpy(c, ts, ivt, 'back'))
                 good = False
@@ -1063,6 +1099,119 @@ def check_arrow(V, c, res, skips):
     return 'agree' if good else 'fail'
 
 
+# ====================================================================================== the model as a voter
+IDX_NAME = {'i8': 'i8', 'u8': 'u8', 'i32': 'i32', 'u32': 'u32', 'i64': 'i64'}
+
+
+class NotModelled(Exception):
+    pass
+
+
+def fk_num(fk):
+    m = re.match(r'^node(\d+)$', fk or '')
+    if not m:
+        raise NotModelled('form_key')
+    return m.group(1)
+
+
+def form_sx(fj):
+    """form JSON (verbose) -> FORMSX of bufrun"""
+    cls = fj['class']
+    ps = dict((k, v) for k, v in (fj.get('parameters') or {}).items() if v is not None)
+    arr, rec = ps.pop('__array__', None), ps.pop('__record__', None)
+    if ps or not all(x is None or (isinstance(x, str) and re.match(r'^[A-Za-z_][A-Za-z0-9_]*$', x)) for x in (arr, rec)):
+        raise NotModelled('parameters')
+    if arr is not None and arr not in ('string', 'bytestring', 'char', 'byte', 'categorical'):
+        raise NotModelled('parameters')
+    fk = fk_num(fj.get('form_key'))
+    if cls == 'NumpyArray':
+        if fj['primitive'] not in CORE_DTYPES:
+            raise NotModelled('dtype')
+        out = '(fnp %s (%s) %s)' % (fj['primitive'], ' '.join(str(x) for x in fj['inner_shape']), fk)
+    elif cls == 'EmptyArray':
+        out = '(fempty %s)' % fk
+    elif cls.startswith('ListOffsetArray'):
+        out = '(flo %s %s %s)' % (fj['offsets'], form_sx(fj['content']), fk)
+    elif cls.startswith('ListArray'):
+        out = '(fla %s %s %s)' % (fj['starts'], form_sx(fj['content']), fk)
+    elif cls == 'RegularArray':
+        out = '(freg %s %d %s)' % (form_sx(fj['content']), fj['size'], fk)
+    elif cls.startswith('IndexedArray'):
+        out = '(fix %s %s %s)' % (fj['index'], form_sx(fj['content']), fk)
+    elif cls.startswith('IndexedOptionArray'):
+        out = '(fixo %s %s %s)' % (fj['index'], form_sx(fj['content']), fk)
+    elif cls == 'ByteMaskedArray':
+        out = '(fbym %s %d %s)' % (form_sx(fj['content']), 1 if fj['valid_when'] else 0, fk)
+    elif cls == 'BitMaskedArray':
+        out = '(fbim %s %d %d %s)' % (form_sx(fj['content']), 1 if fj['valid_when'] else 0, 1 if fj['lsb_order'] else 0, fk)
+    elif cls == 'UnmaskedArray':
+        out = '(funm %s %s)' % (form_sx(fj['content']), fk)
+    elif cls.startswith('UnionArray'):
+        out = '(fun %s %s %s)' % (fj['index'], fk, ' '.join(form_sx(x) for x in fj['contents']))
+    elif cls == 'RecordArray':
+        cs = fj['contents']
+        if isinstance(cs, dict):
+            out = ('(frec %s (%s) %s)' % (fk, ' '.join(cs.keys()), ' '.join(form_sx(x) for x in cs.values()))).replace(' )', ')')
+        else:
+            out = ('(frec %s tuple %s)' % (fk, ' '.join(form_sx(x) for x in cs))).replace(' )', ')')
+    else:
+        raise NotModelled(cls)
+    if arr is not None or rec is not None:
+        out = '(fpar %s %s %s)' % (arr or 'none', rec or 'none', out)
+    return out
+
+
+def model_line(c, r):
+    """bufrun input line for a buffers case, or raises NotModelled"""
+    o = dict((x[0], x[1:]) for x in c.meta['opts'])
+    if any(k in o for k in ('fk', 'kf', 'parts', 'partitioned', 'repart')):
+        raise NotModelled('options')
+    tree = c.meta['tree']
+    if tree_has(tree, ('virt', 'parx')):
+        raise NotModelled('virtual-or-parameters')
+    if leaf_dtypes(tree) - CORE_DTYPES:
+        raise NotModelled('dtype')
+    items = r[2:]
+    tb = item_status(fld(items, 'tobuf'))
+    if tb is None or tb[0] != 'ok':
+        raise NotModelled('to_buffers-failed')
+    fj = json.loads(unhx(get(tb[1], 'form')))
+    ents = []
+    for e in fld(items, 'container')[1:]:
+        m = re.match(r'^part\d+-node(\d+)-(\w+)$', unhx(e[0]))
+        if not m:
+            raise NotModelled('key')
+        ents.append('(%s %s %s %s)' % (m.group(1), m.group(2), e[1][1], unparse(e[1][3])))
+    rt = item_status(fld(items, 'arr'))
+    trace = ''
+    if rt is None:
+        raise NotModelled('no-roundtrip')
+    if rt[0] == 'ok':
+        tr = fld(rt[1], 'trace')
+        trace = ' (trace %s)' % ' '.join('(%s %s)' % (fk_num(unhx(x[1])), x[2]) for x in tr[1:])
+        rts = '(rt ok %s)' % unparse(get(rt[1], 'dump'))
+    elif rt[0] == 'err':
+        rts = '(rt err)'
+    else:
+        raise NotModelled('crash')
+    return '(%s buffers %s (impl (form %s) (len %s) (container %s)%s %s))' % (
+        c.id, c.layouts[0], form_sx(fj), get(tb[1], 'len'), ' '.join(ents), trace, rts)
+
+
+def run_bufrun(lines):
+    exe = os.path.join(B16, 'bufrun')
+    p = subprocess.run('ulimit -s unlimited 2>/dev/null; exec ' + exe, shell=True, input='\n'.join(lines) + '\n',
+                       stdout=subprocess.PIPE, stderr=subprocess.PIPE, text=True, timeout=3600)
+    out = {}
+    for ol in p.stdout.splitlines():
+        m = C.LINE_ID.match(ol)
+        if m:
+            out[m.group(1)] = ol[len(m.group(1)) + 2:-1]
+    if p.returncode != 0:
+        raise RuntimeError('bufrun failed rc=%s: %s' % (p.returncode, p.stderr[-2000:]))
+    return out
+
+
 CHECK = {'buffers': check_buffers, 'pickle': check_pickle, 'numpy': check_numpy, 'numpy2': check_numpy2, 'arrow': check_arrow}
 
 
@@ -1116,6 +1265,46 @@ def run(cases, tier, rng):
                 if len(samples) < 6:
                     samples.append(short(case_line(c), 400))
     C.last_impl_results[:] = []
+    # ---------------- the model as a voter
+    mlines, mcase, notmod = [], {}, {}
+    for c in cases:
+        if c.op != 'buffers':
+            continue
+        r = res.get(c.id)
+        if r is None or r[1] != 'ok':
+            continue
+        try:
+            mlines.append(model_line(c, r))
+            mcase[c.id] = c
+        except NotModelled as e:
+            notmod[str(e)] = notmod.get(str(e), 0) + 1
+        except (KeyError, TypeError, ValueError, IndexError) as e:
+            V.add('bad', 'harness', 'could not prepare the model line: %r' % e, c, [case_line(c)], no_input=True)
+    if mlines and os.path.exists(os.path.join(B16, 'bufrun')):
+        t1 = time.time()
+        mres = run_bufrun(mlines)
+        C.log('model (bufrun): %d cases in %.1fs' % (len(mlines), time.time() - t1))
+        V.corr.setdefault('corr:to_buffers(form,keys,contents)', True)
+        V.corr.setdefault('corr:from_buffers(lengths,result)', True)
+        by = dict((C.LINE_ID.match(l).group(1), l) for l in mlines)
+        for cid, c in mcase.items():
+            v = mres.get(cid, 'bad (no answer)')
+            kind = v.split(' ', 1)[0]
+            V.bump('model:' + (v if kind in ('agree', 'skip') else kind))
+            if kind in ('agree', 'skip'):
+                continue
+            if kind == 'modeldiff':
+                obl = 'corr:to_buffers(form,keys,contents)' if re.search(r'\((form|len|container) ', v) else 'corr:from_buffers(lengths,result)'
+                V.add('modeldiff', obl, 'model differs from the implementation: ' + short(v, 500), c, [case_line(c), '# ' + short(by[cid], 3000), '# ' + short(v, 3000)],
+                      sig=None, no_input=True)
+            elif kind == 'viol':
+                V.add('viol', 'impl:buffers-roundtrip', 'buffers: value/type of the round trip differs through the extracted to_list: ' + short(v, 400), c,
+                      [case_line(c), '# ' + short(v, 3000)],
+                      sig='buffers-trimmed-content-under-untrimmed-parent' if '(out (bad oob))' in v else None)
+            else:
+                V.add('bad', 'harness', 'bufrun: ' + short(v, 400), c, [case_line(c), '# ' + short(by[cid], 3000)], no_input=True)
+    elif mlines:
+        V.add('bad', 'harness', 'bufrun is not built', cases[0], [], no_input=True)
     # keep the smallest representative per (obligation, signature / first words)
     best = {}
     for f in V.findings:
@@ -1136,7 +1325,7 @@ def run(cases, tier, rng):
     if any(f['obl'] == 'harness' for f in V.findings):
         corr['harness:all-cases-evaluated'] = False
     return dict(findings=fl, corr_obligations=corr, evaluations=len(cases), distinct_nontrivial=len(distinct), samples=samples,
-                distribution=dist, verdicts=V.verd, extra=dict(env_skips=V.env, all_findings=len(V.findings)))
+                distribution=dist, verdicts=V.verd, extra=dict(env_skips=V.env, all_findings=len(V.findings), not_modelled=notmod))
 
 
 def signature(c, impl, v):
